@@ -372,6 +372,8 @@ class Impl:
                 ret = o.set_health_state(SoftwareHealthState.COMPROMISED)
             else:
                 ret = getattr(o, ev)()
+            if ev in ("run", "install"):
+                ret = None  # Application.run/install return None; subclasses (DoSBot.run) return their own loop's result
             return f"ret {0 if ret is False else 1}", f"{k} {u} {ev}"
         if k == "tick":
             self.t += 1
